@@ -1,6 +1,7 @@
 SPECIFICATION Spec
 CONSTANTS
-  Scen1 <- ScenAC
+  Scen1 <- ScenA
+  ScenBusy <- ScenC
   Scen2 <- JustNo
   ClearChoices = {FALSE}
   Installs = {TRUE}
